@@ -32,7 +32,11 @@ var rewrittenAttrs = []string{"href", "cite", "src", "rel", "target", "crossorig
 
 // inC20Class decides membership of the general policy class of C20.
 func inC20Class(v *spec.View) bool {
-	if v.Comments || v.Rewriter != "" || v.Unsafe {
+	if v.Comments || v.Rewriter != "" {
+		return false
+	}
+	// AllowUnsafe matters only for script / style: with either allowed the policy allows a raw-text element
+	if v.Unsafe && (v.ElementAllowed("script") || v.ElementAllowed("style")) {
 		return false
 	}
 	for _, e := range []string{"iframe", "noembed", "noframes", "noscript", "plaintext", "xmp"} {
@@ -184,6 +188,8 @@ func c20Specs(c *run.Ctx) []built {
 		// schemes admitted by name and schemes admitted only by pattern take different branches of the URL normal form
 		spec.Spec{Name: "c20-scheme-pattern", Base: "new", Calls: []C{attrsOn([]string{"href"}, "", "a"), attrsOn([]string{"src"}, "", "img"), attrsOn([]string{"cite"}, "", "q"),
 			{Op: "AllowURLSchemes", Names: []string{"https"}}, {Op: "AllowURLSchemesMatching", Re: `^(ftp|tel)$`}}},
+		// the text of removed script / style elements is written back (escaped) when their content is un-skipped under AllowUnsafe
+		spec.Spec{Name: "c20-unsafe-script-text-kept", Base: "new", Calls: []C{els("b", "i", "p"), opt("AllowUnsafe", true), {Op: "AllowElementsContent", Names: []string{"script", "style"}}}},
 		spec.Spec{Name: "crossorigin-admitted", Base: "new", Calls: []C{attrsOn([]string{"src", "crossorigin"}, "", "img", "audio"), opt("RequireCrossOriginAnonymous", true), els("b")}},
 	)
 	k := 2
